@@ -15,6 +15,17 @@ def gen_table(rng, names, n_dims, lim=3, prefix="d"):
             "values": [[rng.randint(-lim, lim) for _ in range(n_dims)] for _ in rows]}
 
 
+def permute_table(rng, tbl, columns=True):
+    """the same labelled vectors with rows and dimension columns in another order"""
+    ri = list(range(len(tbl["rows"])))
+    ci = list(range(len(tbl["dims"])))
+    rng.shuffle(ri)
+    if columns:
+        rng.shuffle(ci)
+    return {"rows": [tbl["rows"][i] for i in ri], "dims": [tbl["dims"][j] for j in ci],
+            "values": [[tbl["values"][i][j] for j in ci] for i in ri]}
+
+
 def onehot_table(rng, names, prefix, extra_dims=0):
     """one-hot vectors: name i -> unit vector of a dimension chosen by a random injective map"""
     rows = list(names)
